@@ -60,6 +60,8 @@ public:
 
   Array& operator=(const Array& other)
   {
+    if(this == &other)
+      return *this;
     clear();
     reserve(other.capacity());
     T* dest = _begin.item;
